@@ -98,7 +98,7 @@ def jsonable(x):
     if isinstance(x, Fraction):
         return str(x)
     if isinstance(x, (float, np.floating)):
-        return float(x).hex()
+        return float(x)
     if isinstance(x, Err):
         return repr(x)
     if x is None or isinstance(x, str):
